@@ -275,6 +275,37 @@ def run(prog: Program, col: Collector, tier: str, refs: Optional[Refs] = None, c
                               "(g1(x, y) + g2(y, x))", f.loc(g_))
             elif verdict is None:
                 col.unresolved(f"{f.fq}::alignment skipped", f"an operand is aligned only under `{norm(g_.test)[:50]}`", f.loc(g_))
+    # every other way out of the rule: a Gaussian rebuilt from ONE operand's raw factors equals a multiple of that operand only when
+    # white_vec and prec_sqrt are rescaled by the same factor (-1/2 |x P b - w a|^2 = b^2 * (-1/2 |x P - w a/b|^2))
+    fused_names = {norm(c.args[0]) for c in walk_no_nested(f.node) if isinstance(c, ast.Call) and (refs.resolve(c.func) or "").endswith("gaussian.Gaussian") and len(c.args) >= 2
+                   and isinstance(c.args[0], ast.Name)}
+    for r in walk_no_nested(f.node):
+        if not (isinstance(r, ast.Return) and r.value is not None):
+            continue
+        v = r.value
+        if isinstance(v, ast.Call) and (refs.resolve(v.func) or "").endswith("gaussian.Gaussian") and len(v.args) >= 2 and isinstance(v.args[0], ast.Name):
+            continue  # the fused result, checked above
+
+        def raw(e, attr):
+            """(operand, scale text or None) when e is X.<attr> or X.<attr> * c / c * X.<attr>"""
+            if isinstance(e, ast.Attribute) and e.attr == attr and isinstance(e.value, ast.Name):
+                return e.value.id, None
+            if isinstance(e, ast.BinOp) and isinstance(e.op, ast.Mult):
+                for a_, b_ in ((e.left, e.right), (e.right, e.left)):
+                    if isinstance(a_, ast.Attribute) and a_.attr == attr and isinstance(a_.value, ast.Name):
+                        return a_.value.id, norm(b_)
+            return None
+        construct = f"{f.fq}::return {norm(v)[:50]}"
+        if isinstance(v, ast.Call) and (refs.resolve(v.func) or "").endswith("gaussian.Gaussian") and len(v.args) >= 2:
+            w_, p_ = raw(v.args[0], "white_vec"), raw(v.args[1], "prec_sqrt")
+            if w_ and p_ and w_[0] == p_[0]:
+                if w_[1] == p_[1]:
+                    col.ok(construct, "both factors of the one operand rescaled alike", f.loc(r))
+                else:
+                    col.violation(construct, f"white_vec is rescaled by `{w_[1]}` and prec_sqrt by `{p_[1]}`: -1/2 |x P b - w a|^2 is a multiple of the operand's log-density only for a = b, so the "
+                                  "precision doubles but the linear term and the constant do not (g + g differs from 2 g)", f.loc(r))
+                continue
+        col.unresolved(construct, "a way out of the rule that is not the fused Gaussian", f.loc(r))
     # ---------------------------------------------------------------- R12.5 (shared with C04 R04.6)
     cat = cat or Catalogue(prog, refs)
     from . import c04
@@ -345,6 +376,51 @@ def run(prog: Program, col: Collector, tier: str, refs: Optional[Refs] = None, c
                                   "changes value; `rank > dim` by shape does not establish it", g_.loc(c_))
                 else:
                     col.unresolved(construct, f"assume_full_rank={norm(kw)} is not a constant", g_.loc(c_))
+    # ---------------------------------------------------------------- R12.11 affine extraction (shared with C04 R04.25)
+    col.rule("R12.11", "the set algebra of the affine_inputs rules claims an input affine only where the op's law allows it (shared with C04 R04.25)", floor=6)
+    c04._affine_calculus(prog, col, refs, cat)
+    # ---------------------------------------------------------------- R12.12 blocks that are multiplied together are gathered in the same order
+    col.rule("R12.12", "two concatenations of per-input blocks that are multiplied with each other gather their blocks from the same sequence with the same filter", floor=1)
+    n12 = 0
+    for g_ in prog.functions_in(prog.modules["funsor.gaussian"]):
+        if isinstance(g_.node, ast.Lambda):
+            continue
+        cats_ = {}
+        for st in ast.walk(g_.node):
+            if isinstance(st, ast.Assign) and len(st.targets) == 1 and isinstance(st.targets[0], ast.Name) and isinstance(st.value, ast.Call) and norm(st.value.func).endswith("cat") \
+                    and st.value.args and isinstance(st.value.args[0], (ast.ListComp, ast.GeneratorExp)) and len(st.value.args[0].generators) == 1:
+                cats_.setdefault(st.targets[0].id, []).append(st)
+        for c_ in ast.walk(g_.node):
+            pair = None
+            if isinstance(c_, ast.Call) and norm(c_.func).rsplit(".", 1)[-1] in ("_vm", "_mv", "matmul") and len(c_.args) == 2:
+                pair = c_.args
+            elif isinstance(c_, ast.BinOp) and isinstance(c_.op, ast.MatMult):
+                pair = [c_.left, c_.right]
+            if not pair or not all(isinstance(x, ast.Name) and len(cats_.get(x.id, [])) == 1 for x in pair):
+                continue
+            ga, gb = (cats_[x.id][0].value.args[0].generators[0] for x in pair)
+            n12 += 1
+            construct = f"{g_.fq}::{norm(c_)[:50]}"
+            same_iter = norm(ga.iter) == norm(gb.iter)
+            # filters compared after renaming the loop targets positionally
+            def filt(g):
+                names = [norm(t) for t in (g.target.elts if isinstance(g.target, ast.Tuple) else [g.target])]
+                out = []
+                for t in g.ifs:
+                    txt = norm(t)
+                    out.append(txt)
+                return names, sorted(out)
+            (na, fa), (nb, fb) = filt(ga), filt(gb)
+            if same_iter and fa == fb and na == nb:
+                col.ok(construct, f"both gathered from `{norm(ga.iter)}` under the same filter", g_.loc(c_))
+            elif not same_iter:
+                col.violation(construct, f"`{pair[0].id}` gathers its blocks from `{norm(ga.iter)}` and `{pair[1].id}` from `{norm(gb.iter)}`: the two are multiplied block against block, so "
+                              "they must list the inputs in the same order - a substitution whose pairs are not in the order of the Gaussian's inputs (Subs(g, (('z', vz), ('x', vx)))) pairs "
+                              "each value with another input's rows", g_.loc(c_))
+            else:
+                col.unresolved(construct, f"same sequence but filters {fa} / {fb}", g_.loc(c_))
+    if n12 == 0:
+        col.unresolved("funsor.gaussian::multiplied concatenations", "no product of two concatenations of per-input blocks found", "funsor/gaussian.py")
     # ---------------------------------------------------------------- R12.4
     from . import c19
     col.rule("R12.4", "the inputs of an aligned result are the requested names, then the remaining inputs (shared with C19 R19.2)", floor=3)
